@@ -62,7 +62,7 @@ POINT_ESTIMATES = ([], ["b"], ["a"])
 NSAMPLES = (2, 0, 1)
 
 
-def h_config(B, outdir, strategy, plotting, export, niter, symbolic, small=False):
+def h_config(B, outdir, strategy, plotting, export, niter, symbolic, small=False, start="given"):
     """outdir / strategy / plotting / export: enumerated by the scenario list (they select files, not control flow of the
     optimisation).  `symbolic`: the set of options that are symbolic in this scenario; the others take their default."""
     import nifty.cl.minimization.optimize_kl as okl
@@ -119,6 +119,7 @@ def h_config(B, outdir, strategy, plotting, export, niter, symbolic, small=False
     def fresh(i):
         return True if i == 0 else bool(opt("fresh", i, (True, False)))
 
+    geo_min = ift.NewtonCG(ift.GradientNormController(iteration_limit=1))
     sanity = _Lazy(pick, "sanity_checks") if "sanity_checks" in symbolic else True
     dry = _Lazy(pick, "dry_run") if "dry_run" in symbolic else False
     retpos = _Lazy(pick, "return_final_position") if "return_final_position" in symbolic else True
@@ -130,10 +131,10 @@ def h_config(B, outdir, strategy, plotting, export, niter, symbolic, small=False
               n_samples=lambda i: opt("n_samples", i, NSAMPLES),
               kl_minimizer=ift.NewtonCG(ift.GradientNormController(iteration_limit=2)),
               sampling_iteration_controller=ift.AbsDeltaEnergyController(1e-4, iteration_limit=10),
-              nonlinear_sampling_minimizer=None,
+              nonlinear_sampling_minimizer=lambda i: opt("geovi", i, (None, geo_min)),
               constants=lambda i: list(opt("constants", i, CONSTANTS)),
               point_estimates=lambda i: list(opt("point_estimates", i, POINT_ESTIMATES)),
-              transitions=transitions, initial_position=init,
+              transitions=transitions, initial_position=init if start == "given" else None,
               plot_energy_history=plot_e, plot_minisanity_history=plot_m,
               save_strategy=strategy, return_final_position=retpos, sanity_checks=sanity, dry_run=dry,
               fresh_stochasticity=fresh)
@@ -222,7 +223,7 @@ def h_config(B, outdir, strategy, plotting, export, niter, symbolic, small=False
         B.is_true("the returned samples live on the full domain of the likelihood", sl.domain is lh.domain)
         cons = lambda i: CONSTANTS[memo.get(f"constants@{i}", 0)] if "constants" in symbolic else CONSTANTS[0]  # noqa: E731
         trans_any = "transitions" in symbolic and any(memo.get(f"transitions@{i}", 0) == 1 for i in executed)
-        if mean is not None and not trans_any:
+        if mean is not None and not trans_any and start == "given":
             for key in ("a",):
                 if all(key in cons(i) for i in executed):
                     B.is_true(f"a parameter that is constant in every iteration keeps its initial value ({key})",
@@ -287,7 +288,9 @@ def scenarios(tier, seed):
                 s(True, "all", "sym", False, 2, ("dry_run", "terminate", "n_samples", "sanity_checks", "return_final_position")),
                 s(False, "latest", False, False, 3, ("dry_run", "terminate", "fresh", "n_samples", "transitions")),
                 s(False, "latest", False, False, 3, ("n_samples", "constants", "point_estimates")),
-                s(False, "latest", False, False, 2, ALL, small=True)]     # all options together, two values per option
+                s(False, "latest", False, False, 2, ALL, small=True),     # all options together, two values per option
+                s(False, "latest", False, False, 2, ("n_samples", "geovi", "constants", "point_estimates", "fresh"), small=True),
+                s(True, "all", False, False, 2, ("n_samples", "geovi", "dry_run", "terminate"), start="random")]
     return quick if tier == "quick" else quick + thorough
 
 
@@ -312,9 +315,9 @@ META = {
     "bounds": {"global iterations": "2 (3 in two thorough scenarios)", "n_samples per iteration": "{2, 0, 1}", "constants per iteration": "{[], [a]}",
                "point_estimates per iteration": "{[], [b], [a]}", "transitions per iteration": "{None, sl -> sl.average()}",
                "fresh_stochasticity per iteration >= 1": "{True, False}", "terminate_callback per iteration": "{False, True}",
-               "inspect_callback": "{None, 1 argument, 2 arguments}", "symbolic option groups": "control-flow group and model group (quick), all options together with two values per option (thorough)"},
+               "inspect_callback": "{None, 1 argument, 2 arguments}", "nonlinear_sampling_minimizer per iteration (thorough)": "{None (MGVI), NewtonCG (geoVI)}", "initial_position": "given; None (random start) in one thorough scenario", "symbolic option groups": "control-flow group and model group (quick), all options together with two values per option (thorough)"},
     "stubs": [],
-    "outside": ["MPI communicators", "geoVI sampling (nonlinear_sampling_minimizer)", "device_id != -1", "resume (C25)", "initial_position=None",
+    "outside": ["MPI communicators", "device_id != -1", "resume (C25)",
                 "numerical quality of the inference result (C19, C20)", "exceptions raised by invalid configurations"],
     "assumptions": ["valid configuration: fresh_stochasticity(0) is True, a sampling controller is given, keys of constants / point_estimates exist"],
 }
